@@ -335,6 +335,6 @@ def run(tier, seed):
 MANIFEST = {
     "engine": "G",
     "technique": "stateless model checking of back-to-back operations on one real MutableFileNode / DirectoryNode: all operation sequences x all delivery orders (and fault placements) within bounds, with the serialiser's bodies observed",
-    "text": "Every sequence of 2 (quick) / 3 (thorough) whole-file or directory operations is requested without waiting on one client through two references obtained from the same cap; under every schedule within the bound the serialised bodies must run one at a time in request order, failures must not block successors, and the final state must equal sequential application.",
+    "text": "Every sequence of 2 (quick) / 3 (thorough) whole-file or directory operations is requested without waiting on one client through two references obtained from the same cap; under every schedule within the bound the serialised bodies must run one at a time in request order, failures must not block successors, and the final state must equal sequential application. All file sequences are repeated on a file whose shares on two of three servers are damaged (reads fail after the retry path until an overwrite replaces them).",
     "note": "Bodies are observed by wrapping the callable passed to _do_serialized from the harness (no source change). Bounds in evidence.",
 }
